@@ -28,7 +28,7 @@ SETUPS = {
     'memory_rooms': ([0, 1], 're', 'm'),
     'dynamic_obstacles': ([0, 1, 3], 'any 3 re bo bw', 'e'),
 }
-THEOREM_PLAN = {'empty': 'empty', 'memory': 'memory', 'keydoor': 'keydoor'}
+THEOREM_PLAN = {'empty': 'empty', 'memory': 'memory', 'keydoor': 'keydoor', 'teleport': 'teleport'}
 MOVES = [Action.MOVE_FORWARD, Action.MOVE_BACKWARD, Action.MOVE_LEFT, Action.MOVE_RIGHT]
 
 
@@ -202,8 +202,8 @@ def _plans_family(seed, shard, nshards, n, names, mode_of, tagp):
 
 
 def fam_win_theorem_plans(seed, shard, nshards, n):
-    """the closed-form plans that the theorems prove winning, run on the real code"""
-    return _plans_family(seed, shard, nshards, n, ['empty', 'memory', 'keydoor'], lambda nm: THEOREM_PLAN[nm], 'win-thm')
+    """the closed-form plans that the theorems prove winning (empty, memory, keydoor, teleport), run on the real code"""
+    return _plans_family(seed, shard, nshards, n, ['empty', 'memory', 'keydoor', 'teleport'], lambda nm: THEOREM_PLAN[nm], 'win-thm')
 
 
 def fam_win_solver(seed, shard, nshards, n):
